@@ -267,6 +267,15 @@ def _cellname(ctx: Ctx, V: str, cell) -> str:
     return f"{cell[0]} {cell[1]} ({nm})"
 
 
+def callee_names_safe(ctx: Ctx, f, call: ast.Call) -> list:
+    from .common import callee_names
+
+    try:
+        return list(callee_names(ctx, f, call)) + [norm(call.func)]
+    except Exception:  # noqa: BLE001
+        return [norm(call.func)]
+
+
 def verdep1(ctx: Ctx, chk) -> None:
     rule = "VERDEP-1"
     chk.rule(rule, "inside handler code the active protocol / version is read only for the type gate, `is None` tests, error construction and logging - never to branch on the version value")
@@ -295,6 +304,44 @@ def verdep1(ctx: Ctx, chk) -> None:
                 else:
                     chk.refute(rule, key, f"`{norm(par)[:80] if par is not None else norm(node)}` in {f.qualname} uses the protocol version as a value: handling of an older message type depends on the active version", ctx.loc(f, node))
     chk.floor(rule, "reads of the active protocol in handler code", n, 4)
+    # the gateway object itself: it hands the active protocol to the two handler lookups and to the schema, nothing else
+    gw = ctx.cls("aiomysensors.gateway.Gateway")
+    m = 0
+    names = ("self.protocol_version", "self.protocol", "self._protocol", "self._protocol_version")
+    for fl in gw.mro_methods().values():
+        for f in fl:
+            for node in ctx.own_nodes(f):
+                if not (isinstance(node, ast.Attribute) and norm(node) in names):
+                    continue
+                par = ctx.prog.parents.get(node)
+                m += 1
+                chk.instance(rule)
+                key = fkey(f, par if par is not None else node) + "::gateway"
+                ok, why = False, ""
+                if isinstance(node.ctx, ast.Store):
+                    ok, why = True, "the version learning assignment"
+                elif isinstance(par, ast.Return):
+                    ok, why = True, "property getter"
+                elif isinstance(par, ast.Compare) and len(par.ops) == 1 and isinstance(par.ops[0], (ast.Is, ast.IsNot)) and isinstance(par.comparators[0], ast.Constant) and par.comparators[0].value is None:
+                    ok, why = True, "`is None` test"
+                elif isinstance(par, ast.Call) and node in par.args and any(nm in (tables.DISPATCH, tables.DISPATCH_OUT) or nm.endswith((".set_protocol", ".get_protocol")) for nm in callee_names_safe(ctx, f, par)):
+                    ok, why = True, "handed to the handler lookup / the schema"
+                elif isinstance(par, ast.Call) and isinstance(ctx.prog.parents.get(par), ast.Raise):
+                    ok, why = True, "error construction"
+                elif isinstance(par, ast.Call) and norm(par.func).split(".")[0] in ("LOGGER", "logging", "_LOGGER"):
+                    ok, why = True, "logging"
+                elif isinstance(par, (ast.Assign, ast.AnnAssign)) and par.value is node:
+                    # a local alias: every use of the local must itself be one of the permitted forms
+                    tg = par.targets[0] if isinstance(par, ast.Assign) else par.target
+                    if isinstance(tg, ast.Name):
+                        uses = [x for x in ctx.own_nodes(f) if isinstance(x, ast.Name) and x.id == tg.id and isinstance(x.ctx, ast.Load)]
+                        ok = all(isinstance(ctx.prog.parents.get(u), ast.Call) and u in ctx.prog.parents[u].args and any(nm in (tables.DISPATCH, tables.DISPATCH_OUT) or nm.endswith((".set_protocol", ".get_protocol")) for nm in callee_names_safe(ctx, f, ctx.prog.parents[u])) for u in uses)
+                        why = "a local handed to the handler lookup / the schema only"
+                if ok:
+                    chk.ok(rule, key, why, ctx.loc(f, node), sample=m <= 2)
+                else:
+                    chk.refute(rule, key, f"`{norm(par)[:80] if par is not None else norm(node)}` in {f.qualname} inspects the active protocol: what the gateway does with a message (buffering, dispatch, sending) then depends on the protocol version and not only on the message", ctx.loc(f, node))
+    chk.floor(rule, "reads of the active protocol in Gateway", m, 4)
 
 
 def except1(ctx: Ctx, chk) -> None:
